@@ -36,6 +36,9 @@ func (n *Nat) UnmarshalCBOR(data []byte) error {
 	if err != nil {
 		return errs.Wrap(err).WithMessage("failed to unmarshal Nat")
 	}
+	if dto == nil {
+		return ErrDeserialisation.WithMessage("Nat DTO is nil")
+	}
 	if ok := n.SetBytes(dto.NatBytes); ok == ct.False {
 		return ErrDeserialisation.WithMessage("invalid Nat bytes")
 	}
@@ -62,6 +65,9 @@ func (i *Int) UnmarshalCBOR(data []byte) error {
 	if err != nil {
 		return errs.Wrap(err).WithMessage("failed to unmarshal Int")
 	}
+	if dto == nil {
+		return ErrDeserialisation.WithMessage("Int DTO is nil")
+	}
 	if ok := i.SetBytes(dto.IntBytes); ok == ct.False {
 		return ErrDeserialisation.WithMessage("invalid Int bytes")
 	}
@@ -85,6 +91,9 @@ func (m *Modulus) UnmarshalCBOR(data []byte) error {
 	serial, err := serde.UnmarshalCBOR[*modulusDTO](data)
 	if err != nil {
 		return errs.Wrap(err).WithMessage("failed to unmarshal ModulusBasic")
+	}
+	if serial == nil {
+		return ErrDeserialisation.WithMessage("Modulus DTO is nil")
 	}
 	if serial.N == nil {
 		return ErrDeserialisation.WithMessage("modulus data is nil")
